@@ -227,9 +227,12 @@ binary_base64_newlines(char **value, size_t *value_len, uint32_t *options, struc
     }
 
     if (!(*options & LYPLG_TYPE_STORE_DYNAMIC)) {
-        /* make the value dynamic so we can modify it */
-        *value = strndup(*value, *value_len);
-        LY_CHECK_RET(!*value, LY_EMEM);
+        /* make the value dynamic so we can modify it, it may include NULL bytes */
+        val = malloc(*value_len + 1);
+        LY_CHECK_RET(!val, LY_EMEM);
+        memcpy(val, *value, *value_len);
+        val[*value_len] = '\0';
+        *value = val;
         *options |= LYPLG_TYPE_STORE_DYNAMIC;
     }
 
